@@ -295,14 +295,18 @@ class DBStorage(BaseStorage):
                 # delete the referenced events
                 for tag in event.tags:
                     name = tag[0]
-                    if name == "e":
-                        event_id = tag[1]
+                    if name == "e" and len(tag) > 1:
+                        try:
+                            event_id = bytes.fromhex(tag[1])
+                        except (ValueError, TypeError):
+                            # not an event id: nothing to delete for this tag
+                            continue
                         query = sa.delete(self.EventTable).where(
                             (self.EventTable.c.pubkey == bytes.fromhex(event.pubkey))
-                            & (self.EventTable.c.id == bytes.fromhex(event_id))
+                            & (self.EventTable.c.id == event_id)
                         )
                         await conn.execute(query)
-                        self.log.info("Deleted event %s", event_id)
+                        self.log.info("Deleted event %s", tag[1])
 
     async def post_save(self, event, connection=None, changed=None):
         """
